@@ -37,12 +37,16 @@ THEOREMS = [
     "SleapVerif.C16.pairing_injective",
     "SleapVerif.C16.perfect_pairs",
     "SleapVerif.C16.perfect_evaluation",
-    "SleapVerif.C16.pairs_total_partial",
-    "SleapVerif.C16.pairs_total_asIs_counterexample",
+    "SleapVerif.C16.pairs_beforeFix_partial",
+    "SleapVerif.C16.pairs_beforeFix_counterexample",
     "SleapVerif.C16.perfect_matching",
     "SleapVerif.C16.perfect_matching_with_empty",
     "SleapVerif.C16.perfect_scores",
     "SleapVerif.C16.perfect_AP",
+    "SleapVerif.C16.mPCK_in_unit",
+    "SleapVerif.C16.no_positive_pairs_nan_counterexample",
+    "SleapVerif.C16.perfect_needs_distinguishable_counterexample",
+    "SleapVerif.C16.mixed_prediction_frame_counterexample",
     "SleapVerif.C16.percentile_monotone",
 ]
 
@@ -51,6 +55,9 @@ TOL = 1e-9
 SIG_OUTSCORED = "deleted_prediction_outscored_a_better_match"
 SIG_FRAME = "prediction_frame_removed_drops_gt_from_count"
 SIG_NONHDF5 = "non_hdf5_video_backend"
+SIG_NOPAIRS = "no_positive_pairs"
+SIG_NESTED = "gt_equals_another_gt_on_all_of_its_visible_nodes"
+SIG_MIXED = "user_instance_in_prediction_frame"
 
 
 def q16(rng, lo, hi):
@@ -76,8 +83,23 @@ def nn(x):
     return None if x != x else x
 
 
-def main(chk: Check):
-    chk.build_and_audit()
+REPLAY: dict = {}
+
+
+def replay(chk: Check, payload):
+    """`bin/check C16 --replay <file>`: the recorded label pair only, through the same pipeline"""
+    case = payload.get("case") or (payload.get("disagreements") or [{}])[0].get("case") or {}
+    case = case.get("case", case)   # deletion failures record {"case": …, "deleted": …}
+    if "frames" not in case:
+        print("NOTE: no label pair recorded in this replay file")
+        return
+    REPLAY["case"] = case
+    main(chk, build=False)
+
+
+def main(chk: Check, build=True):
+    if build:
+        chk.build_and_audit()
     import_repo()
     import numpy as np
     import sleap_io as sio
@@ -160,9 +182,9 @@ def main(chk: Check):
         sk = sio.Skeleton(nodes=[f"n{i}" for i in range(case["n_nodes"])])
         gvid = [make_video(k) for k in case["videos"]]
         gkeys = [tuple(k) for k in case["videos"]]
-        pvid = [gvid[gkeys.index(tuple(k))] if (case["share_videos"] and tuple(k) in gkeys) else make_video(k)
-                for k in case["pr_videos"]]
         pkeys = [tuple(k) for k in case["pr_videos"]]
+        pvid = [gvid[gkeys.index(k)] if (case["share_videos"] and k in gkeys and k not in pkeys[:i]) else make_video(k)
+                for i, k in enumerate(pkeys)]   # a repeated key is a second Video object with the same key
         glf, plf, gi_all, pi_all, pr_pos = [], [], [], [], []
         for f in case["frames"]:
             gi = [sio.Instance.from_numpy(np.array(g, float), sk) for g in f["gt"]]
@@ -177,7 +199,11 @@ def main(chk: Check):
                 pi = [sio.PredictedInstance.from_numpy(np.array(p, float), sk, point_scores=np.ones(case["n_nodes"]),
                                                        score=float(s)) for s, p in f["pr"]]
                 pr_pos.append((len(plf), pkeys.index(key)))
-                plf.append(sio.LabeledFrame(video=pvid[pkeys.index(key)], frame_idx=f["frame_idx"], instances=pi))
+                pinsts = list(pi)
+                if f.get("user_in_pr") is not None:   # a user `Instance` inside the prediction frame (F-C16d)
+                    pos, pts_u = f["user_in_pr"]
+                    pinsts.insert(min(pos, len(pinsts)), sio.Instance.from_numpy(np.array(pts_u, float), sk))
+                plf.append(sio.LabeledFrame(video=pvid[pkeys.index(key)], frame_idx=f["frame_idx"], instances=pinsts))
                 pi_all.append(pi)
             else:
                 pr_pos.append(None)
@@ -287,9 +313,15 @@ def main(chk: Check):
         d["bits"] = parts[4][0] if parts[4] else ""
         d["pck_margin"] = unrat(parts[5][0])
         d["pct"] = [unrat(x) for x in parts[6]]
+        d["pck_at"] = [unrat(x) for x in parts[7]] if len(parts) > 7 else []
         return d
 
     # ------------------------------------------------------------------ comparison
+    def allclose_len(a, b):
+        a = [float(x) for x in np.asarray(a, dtype=float).reshape(-1)]
+        b = [float(x) for x in b]
+        return len(a) == len(b) and all(close(x, y) for x, y in zip(a, b))
+
     def compare(case, res, gi_all, pi_all, out, fpairs):
         """returns list of (what, impl, model) disagreements; `fpairs` = the (agreed) frame pairs"""
         model = parse_model(out)
@@ -316,11 +348,20 @@ def main(chk: Check):
                 dis.append(("voc zero-dict", str(voc)[:200], "none"))
             if nn(m["mOKS"]["mOKS"]) is not None:
                 dis.append(("mOKS", m["mOKS"]["mOKS"], None))
+            # the model's `none` = NaN for mPCK / avg / visibility ratios without any positive pair
+            for name, iv, mv_ in (("mPCK", m["pck_metrics"]["mPCK"], model["mPCK"]),
+                                  ("avg dist", m["distance_metrics"]["avg"], model["avg"]),
+                                  ("visibility precision", m["visibility_metrics"]["precision"], model["vis"][1]),
+                                  ("visibility recall", m["visibility_metrics"]["recall"], model["vis"][2])):
+                if not close(nn(iv), None if mv_ is None else float(mv_)):
+                    dis.append((name + " (no positive pair)", iv, mv_))
+            if len(np.asarray(m["pck_metrics"]["mPCK_parts"]).reshape(-1)) != len(model["parts"]):
+                dis.append(("mPCK_parts length (no positive pair)", np.asarray(m["pck_metrics"]["mPCK_parts"]).shape, len(model["parts"])))
             return dis
         mv = model["voc"]
         if [float(x) for x in voc["oks_voc.match_scores"]] != [float(x) for x in mv["ms"]]:
             dis.append(("match_scores order", list(voc["oks_voc.match_scores"]), [float(x) for x in mv["ms"]]))
-        if not all(close(float(a), float(b)) for a, b in zip(voc["oks_voc.recalls"], mv["recalls"])):
+        if not allclose_len(voc["oks_voc.recalls"], mv["recalls"]):
             dis.append(("recalls", list(voc["oks_voc.recalls"]), [float(x) for x in mv["recalls"]]))
         if not close(float(voc["oks_voc.mAR"]), float(mv["mAR"])):
             dis.append(("mAR", float(voc["oks_voc.mAR"]), float(mv["mAR"])))
@@ -332,7 +373,7 @@ def main(chk: Check):
                 knife = True
                 continue
             row = [float(x) for x in mv["precisions"][i * len(RT):(i + 1) * len(RT)]]
-            if not all(close(float(a), b) for a, b in zip(P[i], row)):
+            if np.asarray(P).shape != (len(MT), len(RT)) or not allclose_len(P[i], row):
                 dis.append((f"precisions[{i}]", [float(x) for x in P[i]][:12], row[:12]))
             if not close(float(voc["oks_voc.AP"][i]), float(mv["AP"][i])):
                 dis.append((f"AP[{i}]", float(voc["oks_voc.AP"][i]), float(mv["AP"][i])))
@@ -356,7 +397,7 @@ def main(chk: Check):
         if not close(nn(dm["avg"]), model["avg"]):
             dis.append(("avg dist", dm["avg"], model["avg"]))
         ipct = [nn(dm[f"p{q}"]) for q in (50, 75, 90, 95, 99)]
-        if not all(close(a, b) for a, b in zip(ipct, model["pct"])):
+        if len(ipct) != len(model["pct"]) or not all(close(a, b) for a, b in zip(ipct, model["pct"])):
             dis.append(("distance percentiles", ipct, model["pct"]))
         pm = m["pck_metrics"]
         if model["pck_margin"] is not None and model["pck_margin"] < 1e-9 and model["pck_margin"] != 0.0:
@@ -365,10 +406,13 @@ def main(chk: Check):
             ibits = "".join("1" if b else "0" for b in np.asarray(pm["pcks"]).reshape(-1))
             if ibits != model["bits"]:
                 dis.append(("pcks", ibits[:60], model["bits"][:60]))
-            if not all(close(float(a), b) for a, b in zip(pm["mPCK_parts"], model["parts"])):
+            if not allclose_len(pm["mPCK_parts"], model["parts"]):
                 dis.append(("mPCK_parts", list(pm["mPCK_parts"]), model["parts"]))
-            if not close(float(pm["mPCK"]), model["mPCK"]):
+            if not close(nn(pm["mPCK"]), model["mPCK"]):
                 dis.append(("mPCK", float(pm["mPCK"]), model["mPCK"]))
+            # PCK per pixel threshold (`pckAt`, the object of `pck_monotone_in_pixels` / `pck_in_unit`)
+            if not allclose_len(np.asarray(pm["pcks"], float).mean(axis=(0, 1)), model["pck_at"]):
+                dis.append(("PCK per pixel threshold", np.asarray(pm["pcks"], float).mean(axis=(0, 1)).tolist(), model["pck_at"]))
         return dis
 
     # ------------------------------------------------------------------ property oracle (independent)
@@ -388,12 +432,23 @@ def main(chk: Check):
             a = np.asarray(v["oks_voc." + k], float)
             if not (np.all(a >= 0) and np.all(a <= 1 + 1e-12)):
                 bad.append(("ratio out of [0,1]: " + k, a.reshape(-1)[:5].tolist()))
+        nanbad = []
+        for name, a in (("mOKS", m["mOKS"]["mOKS"]), ("mPCK", m["pck_metrics"]["mPCK"]),
+                        ("mPCK_parts", m["pck_metrics"]["mPCK_parts"]),
+                        ("visibility precision", m["visibility_metrics"]["precision"]),
+                        ("visibility recall", m["visibility_metrics"]["recall"])):
+            a = np.asarray(a, float)
+            if np.isnan(a).any():
+                nanbad.append(name)
+            elif not (np.all(a >= 0) and np.all(a <= 1 + 1e-12)):
+                bad.append(("ratio out of [0,1]: " + name, a.reshape(-1)[:5].tolist()))
+        if nanbad:
+            # "every reported ratio always lies in [0,1]": NaN is reported when there is a frame pair but no
+            # positive pair (F-C16e); a NaN with positive pairs present is a plain violation
+            chk.fail("reported ratio is NaN: " + ", ".join(nanbad), case,
+                     observed={"positive_pairs": len(e.positive_pairs), "false_negatives": len(e.false_negatives)},
+                     signatures=[SIG_NOPAIRS] if len(e.positive_pairs) == 0 else [])
         if len(e.positive_pairs):
-            for name, a in (("mOKS", m["mOKS"]["mOKS"]), ("mPCK", m["pck_metrics"]["mPCK"]),
-                            ("mPCK_parts", m["pck_metrics"]["mPCK_parts"])):
-                a = np.asarray(a, float)
-                if not (np.all(a >= 0) and np.all(a <= 1 + 1e-12)):
-                    bad.append(("ratio out of [0,1]: " + name, a.reshape(-1)[:5].tolist()))
             AR = np.asarray(v["oks_voc.AR"], float); AP = np.asarray(v["oks_voc.AP"], float)
             if np.any(np.diff(AR) > 1e-12):
                 bad.append(("AR increases with the match threshold", AR.tolist()))
@@ -405,10 +460,6 @@ def main(chk: Check):
         pcts = [nn(m["distance_metrics"][f"p{q}"]) for q in (50, 75, 90, 95, 99)]
         if all(x is not None for x in pcts) and any(b < a - 1e-12 for a, b in zip(pcts, pcts[1:])):
             bad.append(("distance percentiles not monotone", pcts))
-        for k in ("precision", "recall"):
-            x = nn(m["visibility_metrics"][k])
-            if x is not None and not (0 <= x <= 1):
-                bad.append(("visibility ratio out of [0,1]", x))
         for b in bad:
             chk.fail("metric contract violated: " + b[0], case, observed=b[1])
         return not bad
@@ -458,7 +509,16 @@ def main(chk: Check):
             if np.any(after > base + 1e-12):
                 sigs = []
                 if mode == "frame" and any(case["frames"][fi]["gt"] for fi in removed_frames):
-                    sigs.append(SIG_FRAME)
+                    # frames are matched independently: after removing prediction frames the recall must be
+                    # exactly (true positives of the kept frames) / (gt instances of the kept frames), from
+                    # the ORIGINAL pairs and false negatives - only then is the increase F-C16b
+                    pairs0, fns0, _ = canon_impl(res, gi_all, pi_all)
+                    kept = [fi for fi in range(len(case["frames"])) if fi not in removed_frames]
+                    npig_k = sum(1 for f_, _, _, _ in pairs0 if f_ in kept) + sum(1 for f_, _ in fns0 if f_ in kept)
+                    if npig_k:
+                        expect = np.array([sum(1 for f_, _, _, v in pairs0 if f_ in kept and v >= t) / npig_k for t in MT])
+                        if np.allclose(after, expect, atol=1e-12):
+                            sigs.append(SIG_FRAME)
                 if mode == "arbitrary":
                     # structural predicate: a deleted prediction held a gt in the original matching and a
                     # kept prediction of the same frame now gets a better (or its first) match
@@ -477,7 +537,9 @@ def main(chk: Check):
                 chk.fail(f"deleting predictions ({mode}) increased recall", {"case": case, "deleted": deleted},
                          observed={"before": base.tolist(), "after": after.tolist()}, signatures=sigs)
 
-    def oracle_perfect(case, res):
+    def oracle_perfect(case, res, nested=False):
+        """`nested`: some gt equals another gt of its frame on all of its own visible nodes (the structural
+        predicate of F-C16f); failures of such cases carry that signature, all others none"""
         _, e, m = res
         bad = []
         is_empty = lambda g: not any(x == x and y == y for x, y in g)
@@ -512,7 +574,8 @@ def main(chk: Check):
             if not close(float(m["pck_metrics"]["mPCK"]), vis / tot, 1e-12):
                 bad.append(("mPCK != fraction of visible gt keypoints", (float(m["pck_metrics"]["mPCK"]), vis / tot)))
         for b in bad:
-            chk.fail("perfect predictions do not score perfectly: " + b[0], case, observed=b[1])
+            chk.fail("perfect predictions do not score perfectly: " + b[0], case, observed=b[1],
+                     signatures=[SIG_NESTED] if nested else [])
 
     # ------------------------------------------------------------------ generators
     def gen_instance(n_nodes, centre=None):
@@ -574,7 +637,12 @@ def main(chk: Check):
                 for _ in range(rng.choice([0, 0, 0, 1, 2])):
                     pr.append((rng.random(), gen_instance(n_nodes)))  # false positives
                 rng.shuffle(pr)
-            frames.append({"gt": gts, "pr": pr, "extra_pred_in_gt": bool(gts) and rng.random() < 0.1})
+            fr_ = {"gt": gts, "pr": pr, "extra_pred_in_gt": bool(gts) and rng.random() < 0.1}
+            if pr is not None and gts and rng.random() < 0.04:
+                real = [g for g in gts if any(x == x and y == y for x, y in g)]
+                upts = [list(x) for x in rng.choice(real)] if real and rng.random() < 0.5 else gen_instance(n_nodes)
+                fr_["user_in_pr"] = (rng.randrange(len(pr) + 1), upts)
+            frames.append(fr_)
         case = {"n_nodes": n_nodes, "frames": frames, "stddev": rng.choice([0.025, 0.05, 0.1]),
                 "scale": rng.choice([None, None, q16(rng, 50, 2000)]), "thr": rng.choice([0, 0, 0, 0.3])}
         assign_videos(case, perfect)
@@ -620,6 +688,9 @@ def main(chk: Check):
             elif w < 0.4:
                 extra = [k for k in [(0, 0, 0), (0, 0, 1), (0, 1, 0), (0, 1, 2), (0, 0, 2)] if k not in keys]
                 prv.insert(rng.randrange(len(prv) + 1), rng.choice(extra))
+            elif w < 0.47:
+                # a second prediction video with the key of an existing one: the FIRST one is matched
+                prv.insert(rng.randrange(len(prv) + 1), rng.choice(prv))
         elif rng.random() < 0.3:
             rng.shuffle(prv)
         case["pr_videos"] = prv
@@ -679,6 +750,28 @@ def main(chk: Check):
         chk.known_replay(fid, still_fails=bool(b is not None and a is not None and np.any(a > b + 1e-12)),
                          detail=f"before={None if b is None else b.tolist()} after={None if a is None else a.tolist()}")
 
+    def denull(x):
+        if isinstance(x, (list, tuple)):
+            return [denull(v) for v in x]
+        return float("nan") if x is None else x
+
+    def simple_witness(w):
+        c = case_from_witness(w)
+        for f in c["frames"]:
+            f["gt"] = denull(f["gt"])
+            f["pr"] = None if f["pr"] is None else [(s_, denull(p_)) for s_, p_ in f["pr"]]
+            if f.get("user_in_pr") is not None:
+                f["user_in_pr"] = (f["user_in_pr"][0], denull(f["user_in_pr"][1]))
+        return c
+
+    for fid, pred_ in (("F-C16d", lambda r: r[0] != "ok" or len(r[1].positive_pairs) != 1),
+                       ("F-C16e", lambda r: r[0] == "ok" and nn(r[2]["mOKS"]["mOKS"]) is None),
+                       ("F-C16f", lambda r: r[0] == "ok" and not close(float(r[2]["mOKS"]["mOKS"]), 1.0, 1e-9))):
+        ent = next((f for f in chk.known if f["id"] == fid), None)
+        if ent is not None:
+            r, _, _ = run_impl(simple_witness(ent["witness"]))
+            chk.known_replay(fid, still_fails=bool(pred_(r)), detail=str(r)[:160])
+
     ent = next((f for f in chk.known if f["id"] == "F-C16c"), None)
     if ent is not None:
         r, _, _ = run_impl(case_from_witness(ent["witness"]))
@@ -696,11 +789,22 @@ def main(chk: Check):
         pts = [[float(x), float(y)] for x, y in pts]
         two["frames"].append({"video": v, "frame_idx": fi, "gt": [pts], "pr": [(0.9, [list(q) for q in pts])]})
     cases = [("perfect", two)] + [("gen", gen_case()) for _ in range(n_cases)]
-    k = 0
-    while k < n_perfect:
+    for k in range(n_perfect):
         c = gen_case(perfect=True)
-        if distinguishable(c):
-            cases.append(("perfect", c)); k += 1
+        if rng.random() < 0.12:
+            # nested visibility: a copy of an animal with some keypoints marked missing, listed before it
+            f = rng.choice(c["frames"])
+            real = [g for g in f["gt"] if sum(1 for x, y in g if x == x and y == y) >= 2]
+            if real:
+                a = rng.choice(real)
+                vis_idx = [i for i, (x, y) in enumerate(a) if x == x and y == y]
+                drop = set(rng.sample(vis_idx, rng.randrange(1, len(vis_idx))))
+                b = [[float("nan"), float("nan")] if i in drop else list(q) for i, q in enumerate(a)]
+                f["gt"].insert(f["gt"].index(a), b)
+                f["pr"].append((rng.choice([0.3, 0.5, 0.9]), [list(q) for q in b]))
+        # predictions identical to gt; cases with a gt that equals another gt on all of its own visible
+        # nodes are NOT filtered: their failures are routed through the F-C16f signature
+        cases.append(("perfect" if distinguishable(c) else "perfect_nested", c))
     # perfect predictions whose total number of gt instances sweeps 1..200 (`tp/npig` must reach exactly
     # 1.0 for every npig, else the recall-1.0 threshold is lost: e.g. 49 * (1/49) != 1 in doubles).
     # quick: the totals n <= 200 with n * (1.0 / n) != 1.0 plus a random sample; thorough: all of 1..200
@@ -708,6 +812,16 @@ def main(chk: Check):
     totals = list(range(1, 201)) if chk.thorough else sorted(set(awkward + rng.sample(range(1, 201), 28)))
     cases += [("perfect", gen_perfect_total(n)) for n in totals]
     chk.extra["perfect_totals"] = totals
+    if REPLAY:
+        c = REPLAY["case"]
+        c["frames"] = [dict(f, pr=None if f["pr"] is None else [(x[0], x[1]) for x in f["pr"]],
+                            user_in_pr=None if f.get("user_in_pr") is None else tuple(f["user_in_pr"])) for f in c["frames"]]
+        for kk in ("videos", "pr_videos"):
+            if kk in c:
+                c[kk] = [tuple(x) for x in c[kk]]
+        perfect_like = all(f["pr"] is not None and sorted(map(str, [p_ for _, p_ in f["pr"]])) == sorted(map(str, f["gt"]))
+                           for f in c["frames"])
+        cases = [(("perfect" if distinguishable(c) else "perfect_nested") if perfect_like else "gen", c)]
     impls, lines1 = [], []
     for kind, case in cases:
         res, gi_all, pi_all = run_impl(case)
@@ -716,23 +830,39 @@ def main(chk: Check):
         lines1.append(pairs_line(case, gi_all, info))
     outs1 = run_driver("C16.lean", lines1)
     todo, lines2 = [], []
+    mixed_of = {}
     for (kind, case), (res, gi_all, pi_all, info), out1 in zip(cases, impls, outs1):
         asis, mp = parse_pairs(out1, info)
         nvid = len(info["case"]["videos"])
         tags = [kind, f"frames{len(case['frames'])}", f"videos{nvid}", "ok" if res[0] == "ok" else "raise",
-                "pairs_asis:" + asis]
+                "hdf5" if all(tuple(k) == ("asset",) or tuple(k)[0] == 0 for k in info["case"]["videos"]) else "non_hdf5_backend"]
         if len({tuple(k)[:2] for k in info["case"]["videos"]}) < nvid:
             tags.append("videos_share_a_file")
         if any(not any(x == x and y == y for x, y in g) for f in case["frames"] for g in f["gt"]):
             tags.append("has_empty_gt_instance")
+        mixed = any(f.get("user_in_pr") is not None and f["pr"] is not None for f in case["frames"])
+        tags += [f"thr{case['thr']}", "scale:" + ("none" if case["scale"] is None else "number"), f"stddev{case['stddev']}"]
+        if mixed:
+            tags.append("user_instance_in_prediction_frame")
+        if any(f.get("extra_pred_in_gt") for f in case["frames"]):
+            tags.append("predicted_instance_in_gt_frame")
+        if any(f["pr"] and len({s_ for s_, _ in f["pr"]}) < len(f["pr"]) for f in case["frames"]):
+            tags.append("detection_score_ties")
+        if len({tuple(k) for k in info["case"]["pr_videos"]}) < len(info["case"]["pr_videos"]):
+            tags.append("duplicate_prediction_video_key")
+        if mixed and res[0] == "raise" and res[1] == "AttributeError" and "score" in res[2]:
+            # a user instance got matched and voc_metrics reads its `.score` (F-C16d)
+            chk.case(None, tags=tags)
+            chk.fail("Evaluator raises / mis-indexes when a prediction frame also holds a user Instance",
+                     case, observed=res, signatures=[SIG_MIXED])
+            continue
         if res[0] == "raise" and res[1] == "AttributeError" and ("dataset" in res[2] or "source_filename" in res[2]):
             chk.case(None, tags=tags)
-            if asis == "raise":
-                chk.fail("Evaluator raises AttributeError for labels whose videos are not HDF5-backed",
-                         case, observed=res, signatures=[SIG_NONHDF5])
-            else:
-                chk.disagree("Evaluator raised AttributeError where the as-is model does not", case, str(res), asis)
+            chk.fail("Evaluator raises AttributeError for labels whose videos are not HDF5-backed (regression of F-C16c)",
+                     case, observed=res, signatures=[SIG_NONHDF5])
+            chk.disagree("Evaluator raised AttributeError where the model pairs the frames", case, str(res), "ok")
             continue
+        mixed_of[id(case)] = mixed
         if res[0] == "ok":
             ip = impl_pairs(res[1], info)
             agree = ip == mp
@@ -750,8 +880,8 @@ def main(chk: Check):
             chk.case(None, tags=tags)
             if res[0] == "ok":  # pairing disagrees: search for a failing input with the property oracle
                 oracle_bounds(case, res)
-                if kind == "perfect":
-                    oracle_perfect(case, res)
+                if kind.startswith("perfect"):
+                    oracle_perfect(case, res, nested=(kind == "perfect_nested"))
     outs2 = run_driver("C16.lean", lines2)
     for (kind, case, res, gi_all, pi_all, mp, tags), line, out in zip(todo, lines2, outs2):
         dis = compare(case, res, gi_all, pi_all, out, mp)
@@ -759,11 +889,17 @@ def main(chk: Check):
         chk.case(("eval", line) if npairs else None,
                  sample={"case": case, "AR": np.asarray(res[2]["voc_metrics"]["oks_voc.AR"]).tolist()}
                  if npairs and len(chk.samples) < 3 else None, tags=tags + ["pairs0" if npairs == 0 else "pairs+"])
+        if dis and mixed_of.get(id(case)):
+            # the model describes the repaired behaviour (user instances in a prediction frame are ignored);
+            # HEAD indexes the unfiltered list with the filtered order (F-C16d)
+            chk.fail("prediction frame with a user Instance: HEAD differs from matching the PredictedInstances only",
+                     case, observed=[(w, str(i)[:200], str(mo)[:200]) for w, i, mo in dis[:3]], signatures=[SIG_MIXED])
+            continue
         for what, i, mo in dis:
             chk.disagree("Evaluator vs Eval model: " + what, case, str(i)[:400], str(mo)[:400])
         oracle_bounds(case, res)
-        if kind == "perfect":
-            oracle_perfect(case, res)
+        if kind.startswith("perfect"):
+            oracle_perfect(case, res, nested=(kind == "perfect_nested"))
         oracle_deletion(case, res, gi_all, pi_all, n_try=2 if not dis else 6)
 
 if __name__ == "__main__":
@@ -784,8 +920,14 @@ if __name__ == "__main__":
              "k/16 lattice, stddev/scale/threshold options; plus perfect-prediction cases (multi-video too) and one fixed "
              "two-video package case; distinct = distinct eval driver line with >= 1 positive pair",
         assumptions=[
-            "prediction frames contain only PredictedInstance objects; at most one prediction LabeledFrame per frame index",
+            "at most one prediction LabeledFrame per (video, frame index); user_labels_only=True (the default; =False is not generated)",
+            "match_threshold >= 0 and oks_scale >= 0 or None (a negative threshold lets the all-NaN copy of an empty instance match; "
+            "a negative scale gives OKS > 1)",
+            "an empty gt instance (all keypoints NaN) counts as a miss: for exact copies AR = (#non-empty)/(#all), not 1 "
+            "(HEAD's behaviour, stated as theorem perfect_matching_with_empty; a reading decision, not a finding)",
+            "prediction frames that also hold a user Instance are generated (4 %); the model ignores the user instance (the repair), "
+            "HEAD's deviation is finding F-C16d",
             "match_score_by='oks' and the default threshold grids (linspace(0.5,0.95,10), linspace(0,1,101), linspace(1,10,10))",
         ],
     )
-    run_check(chk, main)
+    run_check(chk, main, replay)
